@@ -27,6 +27,7 @@ LEVEL_ASSUMPTIONS = [
     "plain-Python oracle on >= 2000 sampled plans per setting in every run"]
 _REQUIRED = {"exhaustive_plans": 2_985_984, "feasible_plans_confirmed": 1,
             "random_plans": 1000, "consistent_with_rule_violation": 200,
+            "bye_consistent_plans": 100,
             "njit_oracle_cross_checked": 2000}
 
 SETTINGS_QUICK = [(2, 1, 3, 1, 3, 1, 6), (2, 2, 3, 2, 3, 1, 6),
@@ -411,6 +412,16 @@ def eval_plan(ctx, n, cfg, plan_rows, tag, matrix=None):
                           f"{rc}", case)
     else:
         ctx.count("inconsistent_plans")
+        # plans whose non-bye cells are mutually consistent (what the game
+        # encoding produces): the documented count incl. one error per bye
+        wb_ = ot.error_count_with_byes(plan_rows, cfg)
+        if wb_ is not None:
+            ctx.count("bye_consistent_plans")
+            if v != wb_:
+                ctx.violation(
+                    "value-differs-from-per-rule-count:with-byes",
+                    f"Errors = {v}, documented count with byes = {wb_}",
+                    case)
     return v
 
 
@@ -524,10 +535,23 @@ def random_shard(ctx, count):
                 a = int(rng.integers(n))
                 p[d][a] = (a + 1) * int(rng.choice([-1, 1]))
             tag = "self-pairing"
-        else:
+        elif it % 16 == 7:
             p = [[int(rng.choice([-n, n, 0, 1, -1])) for _ in range(n)]
                  for _ in range(D)]
             tag = "extremes"
+        else:
+            # consistent days with some games removed (byes on both sides)
+            p = ot.circle_method(n, rounds, bool(rng.integers(2)))
+            for _ in range(int(rng.integers(1, 1 + max(1, D // 2)))):
+                d = int(rng.integers(D))
+                a = int(rng.integers(n))
+                b = abs(p[d][a]) - 1
+                if p[d][a] != 0:
+                    p[d][a] = 0
+                    p[d][b] = 0
+            if rng.integers(2):
+                rng.shuffle(p)
+            tag = "consistent-with-byes"
         eval_plan(ctx, n, cfg, p, tag)
         if it % 400 == 0:
             ctx.sample({"n": n, "cfg": list(cfg), "tag": tag,
